@@ -23,7 +23,9 @@ META = {
     'eval_deps': ['theories/model/Links.vo'],
     'level_text': ("Theorems in Coq (Props/C02.v) about the executable model of ApplyLinks: the residue-level matches of a link are "
                    "exactly the injective assignments of its residues to residues of the molecule that are induced-subgraph "
-                   "isomorphisms and satisfy vermouth's relative-order table (read declaratively for n, >, <, * and proved "
+                   "isomorphisms respecting edge labels (C02_edge_labels: between two residues of a match the link pattern has an "
+                   "edge exactly if the residue graph has one, and then the 'linktype' labels coincide, none = none, so an unlabelled "
+                   "link never matches a labelled edge nor the reverse) and satisfy vermouth's relative-order table (read declaratively for n, >, <, * and proved "
                    "symmetric); a match contributes only if every link atom identifies exactly one atom of its residue; an "
                    "interaction (section, atoms, version) is in the result iff a block or a matching link wrote it and it carries the "
                    "parameters of the last writer in force-field order; block interactions survive unless a link writes the same "
@@ -35,7 +37,8 @@ META = {
                    "VF2 (its match set is compared with the model's enumeration). No axioms. Outside the model: non-edges, patterns, "
                    "parameter effectors, atom attributes other than name and residue name."),
     'rule': ("cases = generated force fields (1-3 blocks, 0-5 links over 2-4 residues with +n / > / < orders, residue-name choices, "
-             "replace, versions, guards, explicit edges) x residue graphs of 1-7 residues (path/tree/ring, mixed names, permuted "
+             "replace, versions, guards, explicit edges; 30%: labelled copies of links and labelled residue edges; 10%: link families "
+             "whose atoms carry their own residue name, one per arrangement over three residues) x residue graphs of 1-7 residues (path/tree/ring, mixed names, permuted "
              "keys); non-trivial = at least one link applied and at least one link or window not applicable; distinct by "
              "(force-field text, graph)"),
 }
